@@ -206,6 +206,13 @@ def run_check(pid, tier):
     known = [k for k in load_known() if k["property"] == pid and k["status"] == "known"]
     gate = gate_no_axioms()
     proof = build_property(pid)
+    # the correspondence/oracle modules the harness evaluates must be current too
+    corr_vo = " ".join("Corr/" + f + "o" for f in sorted(os.listdir(os.path.join(COQ, "Corr"))) if f.endswith(".v"))
+    r = sh(f"timeout 3000 make -j16 {corr_vo}", cwd=COQ)
+    if r.returncode != 0:
+        print((r.stdout + r.stderr)[-2000:])
+        print(f"HARNESS-ERROR property={pid} (Corr modules do not build)")
+        return 2
     mod = importlib.import_module(f"props.{pid.lower()}")
     try:
         res = mod.run(ctx)
@@ -270,6 +277,11 @@ def run_check(pid, tier):
         "exhaustive": bool(res.get("exhaustive", False)),
         "known_findings_seen": sorted(reported_known),
     }
+    sigs = {}
+    for v in violations:
+        sigs[str(v.get("sig"))] = sigs.get(str(v.get("sig")), 0) + 1
+    if sigs:
+        cov["failing_cases_by_signature"] = sigs
     cov.update(res.get("coverage_extra", {}))
     ev = {"property_id": pid, "tier": tier, "seed": seed, "level": "proof", "coverage": cov,
           "assumptions": res.get("assumptions", []), "wall_s": round(wall, 2), "violations": nviol}
